@@ -74,6 +74,57 @@ def grid_cases(ctx, rng):
     return cases
 
 
+def text_oracle(toks):
+    """the property's own text on a token list (ASCII values): flag if given, else the variable if set (even to the empty
+    string), else the default; lists split on commas, trimmed, empty items dropped, check codes upper-cased; booleans true
+    exactly for true/1/yes/on in any case with surrounding blanks, and Go's other ParseBool spellings; a bare bool flag is
+    true; of a repeated flag the last occurrence counts.  Returns 'S=.. P=.. C=..' or None where the text is silent."""
+    un = lambda h: b"" if h == "." else binascii.unhexlify(h)
+    flag, env = {}, {}
+    for t in toks:
+        if t.startswith("B:"):
+            flag[t[2:]] = True
+        elif t.startswith("F:"):
+            k, v = t[2:].split("=", 1)
+            flag[k] = un(v)
+        elif t.startswith("E:"):
+            k, v = t[2:].split("=", 1)
+            env[k] = un(v)
+    ws = b" \t\n\r\x0b\x0c"
+
+    def blist(v, upper):
+        items = [x.strip(ws) for x in v.split(b",")]
+        items = [x for x in items if x]
+        return [x.upper() if upper else x for x in items]
+
+    def pbool(v, from_flag):
+        if v is True:
+            return True
+        t = v.strip(ws)
+        if from_flag:
+            # flag.BoolVar uses strconv.ParseBool on the raw text; anything else is a usage error: not specified here
+            return {b"1": True, b"t": True, b"T": True, b"true": True, b"TRUE": True, b"True": True,
+                    b"0": False, b"f": False, b"F": False, b"false": False, b"FALSE": False, b"False": False}.get(v, None)
+        return t.lower() in (b"true", b"1", b"yes", b"on", b"t")
+    if FLAG["scan"] in flag:
+        sc = pbool(flag[FLAG["scan"]], True)
+        if sc is None:
+            return None
+    elif ENV["scan"] in env:
+        sc = pbool(env[ENV["scan"]], False)
+    else:
+        sc = False
+    out = []
+    for opt, upper, default in (("paths", False, [b"testdata"]), ("checks", True, [])):
+        if FLAG[opt] in flag:
+            out.append(blist(flag[FLAG[opt]], upper))
+        elif ENV[opt] in env:
+            out.append(blist(env[ENV[opt]], upper))
+        else:
+            out.append(default)
+    return "S=%d P=%s C=%s" % (1 if sc else 0, ",".join(H(x) for x in out[0]), ",".join(H(x) for x in out[1]))
+
+
 def decode_cfg(line):
     """'S=1 P=hex,hex C=hex' -> (scan, paths, checks) or None"""
     if not line or not line.startswith("S="):
@@ -112,12 +163,17 @@ def run(ctx):
     cases = grid_cases(ctx, rng)
     lines = [" ".join(t) for (t, _, _) in cases]
     impl, model = lib.run_pair(ctx, "unit-config", "config", lines)
-    dist, fails, infid = {}, [], []
+    dist, fails, infid, text_fails = {}, [], [], []
     nontriv = set()
     for (toks, frag, tag), a, b in zip(cases, impl, model):
         dist[tag] = dist.get(tag, 0) + 1
         if a != b:
             (fails if frag else infid).append((toks, a, b, tag))
+        elif frag:
+            # the property's text itself, on the implementation's answer (the model takes its parameters from the source)
+            want = text_oracle(toks)
+            if want is not None and a != want and a.startswith("S="):
+                text_fails.append((toks, a, want, tag))
         if frag and toks and a not in ("S=0 P=7465737464617461 C=",):
             nontriv.add(" ".join(sorted(toks)))
     found = False
@@ -146,6 +202,32 @@ def run(ctx):
                        "implementation": x[0], "implementation_decoded": decode_cfg(x[0]),
                        "model_flag_env_default": y[0], "model_decoded": decode_cfg(y[0]),
                        "what": "config.CreateFlagSet/ParseFlagsFromFlagSet/FromEnv resolve differently from flag > environment > default"})
+        if len(rep.violations) >= 4:
+            break
+
+    for (toks, a, want, tag) in text_fails[:200]:
+        cur = list(toks)
+        changed = True
+        while changed:
+            changed = False
+            for i in range(len(cur)):
+                cand = cur[:i] + cur[i + 1:]
+                x, _ = lib.run_pair(ctx, "unit-config", "config", [" ".join(cand)])
+                w = text_oracle(cand)
+                if w is not None and x[0] != w and x[0].startswith("S="):
+                    cur = cand
+                    changed = True
+                    break
+        x, _ = lib.run_pair(ctx, "unit-config", "config", [" ".join(cur)])
+        key = ("text", tuple(t.split("=")[0] for t in cur))
+        if key in seen:
+            continue
+        seen.add(key)
+        found = True
+        readable = [t.split("=")[0] + "=" + repr(binascii.unhexlify(t.split("=")[1]).decode("utf8", "replace") if t.split("=")[1] != "." else "") if "=" in t else t for t in cur]
+        rep.violation({"property": "C18", "kind": "config-text", "tokens": cur, "readable": readable, "implementation": x[0], "implementation_decoded": decode_cfg(x[0]),
+                       "by_the_property_text": text_oracle(cur), "by_the_property_text_decoded": decode_cfg(text_oracle(cur)),
+                       "what": "the resolved configuration differs from what the property's text prescribes (flag, else variable even if empty, else default; lists split, trimmed, empties dropped, check codes upper-cased)"})
         if len(rep.violations) >= 4:
             break
 
@@ -249,5 +331,12 @@ def replay(ctx, d):
         print("impl :", x[0], decode_cfg(x[0]))
         print("model:", y[0], decode_cfg(y[0]))
         return 0 if x[0] == y[0] else 1
+    if d.get("kind") == "config-text":
+        x, _ = lib.run_pair(ctx, "unit-config", "config", [" ".join(d["tokens"])])
+        w = text_oracle(d["tokens"])
+        print("case :", d["readable"])
+        print("impl :", x[0], decode_cfg(x[0]))
+        print("text :", w, decode_cfg(w))
+        return 0 if x[0] == w else 1
     print(d)
     return 0
